@@ -486,6 +486,19 @@ func strUnescCase(c *Ctx, k strCase) {
 				cmp("Decoder.Decode(literal cut by a refill of the buffer)", rs, err)
 			}
 		}
+		// ... and the literal behind a long plain stretch, so that its units arrive with the second fill of one and the same value
+		if allZero(k.Pads) {
+			long := strings.Repeat(strPad, 33000)
+			var rs string
+			err := json.NewDecoder(strings.NewReader(`"` + long + doc[1:] + "\n")).Decode(&rs)
+			if err == nil && !strings.HasPrefix(rs, long) {
+				err = fmt.Errorf("the long prefix is damaged")
+			}
+			cmp("Decoder.Decode(literal longer than the buffer)", strings.TrimPrefix(rs, long), err)
+			rs = ""
+			err = json.Unmarshal([]byte(`"`+long+doc[1:]), &rs)
+			cmp("json.Unmarshal(literal longer than the buffer)", strings.TrimPrefix(rs, long), err)
+		}
 		c.Eval(1)
 		if got := json.Valid([]byte(doc)); got != v.OK {
 			c.Diverge("C02", "json.Valid(string literal)", fmt.Sprint(v.OK), fmt.Sprint(got), "", k)
